@@ -10,16 +10,24 @@
  * Output, one JSON object per line:
  *   Res{fn,r,k,c,ok[,drift][,scales,exp,at,got,want,what]}   one per case (all three scales; scales = bit mask of the failing ones)
  *   Sort{fn,rev,key,rows,cols,m,res,exact}            MatrixSort/MatrixReverseSort: input and output for TLC
+ *   ArgExt{fn,max,rows,cols,m,row,col}                MatrixGetMaxValueIndex/MatrixGetMinValueIndex: input and returned position for TLC
+ *   Note{fn,what}                                     an observation that is not a mismatch (e.g. PearsonCorrelMatrix returns r^2)
  *   Crash{fn,r,k,c,exp}                               written from the sanitizer death callback / signal handler
+ * Second batch (families DVector2, MatMaps, DescStat, DescStatMiss, Correl, Division, extended Tensor): besides the three scales a
+ * fourth pass (exp 99, "mixed units") gives every column / operand its own power-of-two unit, and every routine with a caller-provided
+ * output is run a second time into the already sized output filled with a non-zero value ("stale":1 in the Res line on a mismatch).
  */
 #include "scientific.h"
 #include "verif_rt.h"
 #include <float.h>
 
 typedef struct { int len; long *v; } arr;
-typedef struct { char fam[32]; int sd, r, k, c, nin, nout; arr in[8], out[8]; } kcase;
+typedef struct { char fam[32]; int sd, r, k, c, nin, nout; arr in[16], out[16]; } kcase;
 
 static const int EXPS[3] = { -20, 0, 20 };
+#define MIX 99                       /* fourth pass: column j (or operand) in its own unit 2^EXPS[j % 3] */
+static int ecol(int e, int j){ return e == MIX ? EXPS[j % 3] : e; }
+#define STALE 7.25                   /* what an already sized output holds before the second call */
 #define EPS DBL_EPSILON
 
 /* ---- current case, for crash reports ---- */
@@ -41,11 +49,12 @@ void __sanitizer_set_death_callback(void (*cb)(void));
 #endif
 
 /* ---- mismatch bookkeeping ---- */
-static struct { int bad, exp, i, j, scales; double got, want; const char *what; } mm;   /* scales: bit 0/1/2 = failed at 2^-20 / 1 / 2^20 */
+static int stale_pass = 0;           /* 1 while a routine runs into an already sized, non-zero output */
+static struct { int bad, exp, i, j, scales, stale; double got, want; const char *what; } mm;   /* scales: bit 0/1/2/3 = failed at 2^-20 / 1 / 2^20 / mixed units */
 static void miss(int e, int i, int j, double got, double want, const char *what){
-  mm.scales |= e < 0 ? 1 : (e == 0 ? 2 : 4);
+  mm.scales |= e == MIX ? 8 : (e < 0 ? 1 : (e == 0 ? 2 : 4));
   if(mm.bad) return;
-  mm.bad = 1; mm.exp = e; mm.i = i; mm.j = j; mm.got = got; mm.want = want; mm.what = what;
+  mm.bad = 1; mm.exp = e; mm.i = i; mm.j = j; mm.got = got; mm.want = want; mm.what = what; mm.stale = stale_pass;
 }
 /* got == want, or within rel * max(|want|, floor) when rel > 0 */
 static int near_(double got, double want, double rel, double floor_){
@@ -54,6 +63,8 @@ static int near_(double got, double want, double rel, double floor_){
   double s = fabs(want) > floor_ ? fabs(want) : floor_;
   return fabs(got - want) <= rel * s;
 }
+/* absolute tolerance */
+#define CHKA(e, i, j, got, want, tol, what) do{ double g_ = (got), w_ = (want); if(!(vfinite(g_) && fabs(g_ - w_) <= (tol))) miss(e, i, j, g_, w_, what); }while(0)
 #define CHK(e, i, j, got, want, rel, fl, what) do{ double g_ = (got), w_ = (want); if(!near_(g_, w_, rel, fl)) miss(e, i, j, g_, w_, what); }while(0)
 
 static matrix *mat_of(arr *a, int rows, int cols, int e){
@@ -68,6 +79,20 @@ static dvector *vec_of(arr *a, int n, int e){
   for(int i = 0; i < n; i++) v->data[i] = ldexp((double)a->v[i], e);
   return v;
 }
+/* column j in unit 2^ecol(e, j) */
+static matrix *mat_of_cols(arr *a, int rows, int cols, int e){
+  matrix *m; NewMatrix(&m, rows, cols);
+  if(a->len != rows * cols){ fprintf(stderr, "case operand has %d cells, expected %dx%d\n", a->len, rows, cols); exit(2); }
+  for(int i = 0; i < rows; i++) for(int j = 0; j < cols; j++) m->data[i][j] = ldexp((double)a->v[i * cols + j], ecol(e, j));
+  return m;
+}
+static void fill_mat(matrix *m, double x){ for(size_t i = 0; i < m->row; i++) for(size_t j = 0; j < m->col; j++) m->data[i][j] = x; }
+static int shape_is(matrix *m, int rows, int cols, int e){
+  if((int)m->row == rows && (int)m->col == cols) return 1;
+  miss(e, (int)m->row, (int)m->col, (double)m->row, (double)rows, "result shape"); return 0;
+}
+static int sgn(double x){ return x > 0 ? 1 : (x < 0 ? -1 : 0); }
+static int note_done = 0;
 static void need(arr *a, int n){ if(a->len != n){ fprintf(stderr, "expected-result list has %d cells, expected %d\n", a->len, n); exit(2); } }
 static void cmp_mat(matrix *m, arr *want, int rows, int cols, int e, int deg, const char *what){
   need(want, rows * cols);
@@ -82,10 +107,383 @@ static void cmp_vec(dvector *v, arr *want, int n, int e, int deg, const char *wh
 
 static int drift = 0;
 
+/* ==== second batch ==================================================================================================== */
+static tensor *tensor_of(arr *a, int k, int r, int c, int e){
+  tensor *t; NewTensor(&t, k);
+  if(a->len != k * r * c){ fprintf(stderr, "tensor operand size\n"); exit(2); }
+  for(int s = 0; s < k; s++){
+    NewTensorMatrix(t, s, r, c);
+    for(int i = 0; i < r; i++) for(int j = 0; j < c; j++) t->m[s]->data[i][j] = ldexp((double)a->v[(s * r + i) * c + j], e);
+  }
+  return t;
+}
+static void emit_argext(const char *fn, kcase *q, int e, int mx, size_t row, size_t col){
+  static char buf[1 << 16]; int p = 0, r = q->r, c = q->c;
+  p += snprintf(buf + p, sizeof(buf) - p, "{\"e\":\"ArgExt\",\"fn\":\"%s\",\"sd\":%d,\"exp\":%d,\"max\":%d,\"rows\":%d,\"cols\":%d,\"m\":[", fn, q->sd, e, mx, r, c);
+  for(int i = 0; i < r; i++){ p += snprintf(buf + p, sizeof(buf) - p, "%s[", i ? "," : ""); for(int j = 0; j < c; j++) p += snprintf(buf + p, sizeof(buf) - p, "%s%ld", j ? "," : "", q->in[0].v[i * c + j]); p += snprintf(buf + p, sizeof(buf) - p, "]"); }
+  p += snprintf(buf + p, sizeof(buf) - p, "],\"row\":%ld,\"col\":%ld}", row > 1000000 ? 1000000L : (long)row, col > 1000000 ? 1000000L : (long)col);
+  VRT_EMIT("%s", buf);
+}
+
+/* MatrixColDescStat on one operand; cols of the expected lists: S sum, MD twice the median, H sum of 60/x (or NULL), VN n*sumsq - sum^2, MN, MX, NZ zeros */
+static void descstat_cmp(matrix *ds, int r, int c, int e, arr *S, arr *MD, arr *H, arr *VN, arr *MN, arr *MX, arr *NZ){
+  double n = (double)r;
+  for(int j = 0; j < c; j++){
+    int ej = ecol(e, j);
+    double *g = ds->data[j], s = (double)S->v[j], vn = (double)VN->v[j];
+    CHK(e, j, 0, g[0], ldexp(s, ej) / n, 4 * EPS, 0.0, "average = column sum / n");
+    CHK(e, j, 1, g[1], ldexp((double)MD->v[j], ej) / 2.0, 0.0, 0.0, "median = middle order statistic (mean of the two middle ones for even n)");
+    if(H) CHK(e, j, 2, g[2], ldexp(n * 60.0, ej) / (double)H->v[j], 1e-13, 0.0, "harmonic mean = n / sum(1/x)");
+    double vp = ldexp(vn, 2 * ej) / (n * n), fl = ldexp(1.0, 2 * ej);
+    CHK(e, j, 3, g[3], vp, 1e-12, fl, "population variance = (n*sumsq - sum^2)/n^2");
+    if(!(g[5] >= 0.0)) miss(e, j, 5, g[5], sqrt(vp), "population sdev >= 0");
+    CHK(e, j, 5, g[5] * g[5], vp, 1e-12, fl, "population sdev^2 = population variance");
+    if(r >= 2){
+      double vs = ldexp(vn, 2 * ej) / (n * (n - 1.0));
+      CHK(e, j, 4, g[4], vs, 1e-12, fl, "sample variance = (n*sumsq - sum^2)/(n(n-1))");
+      if(!(g[6] >= 0.0)) miss(e, j, 6, g[6], sqrt(vs), "sample sdev >= 0");
+      CHK(e, j, 6, g[6] * g[6], vs, 1e-12, fl, "sample sdev^2 = sample variance");
+    }
+    if(H && s > 0){                        /* coefficient of variation (percent) = 100 sdev / mean, positive operand only */
+      if(!(g[7] >= 0.0)) miss(e, j, 7, g[7], 0.0, "CV >= 0 for a positive column");
+      CHK(e, j, 7, g[7] * g[7], 1e4 * vn / (s * s), 1e-12, 1.0, "CV^2 = 10000 * population variance / mean^2");
+      if(r >= 2) CHK(e, j, 8, g[8] * g[8], 1e4 * vn * n / ((n - 1.0) * s * s), 1e-12, 1.0, "CV^2 = 10000 * sample variance / mean^2");
+    }
+    CHK(e, j, 9, g[9], ldexp((double)MN->v[j], ej), 0.0, 0.0, "column minimum");
+    CHK(e, j, 10, g[10], ldexp((double)MX->v[j], ej), 0.0, 0.0, "column maximum");
+    if(ej >= 0) CHK(e, j, 11, g[11], (double)NZ->v[j], 0.0, 0.0, "number of zeros");     /* at 2^-20 the unit itself is below the routine's 1e-6 zero threshold */
+    CHK(e, j, 12, g[12], 0.0, 0.0, 0.0, "number of missing values");
+  }
+}
+
+static int run_two(const char *fn, kcase *q, int e){
+  int r = q->r, k = q->k, c = q->c;
+  if(!strcmp(fn, "DVectorDVectorDiff") || !strcmp(fn, "DVectorDVectorSum")){
+    if(e == MIX) return 1;
+    int sum = fn[14] == 'S';
+    dvector *a = vec_of(&q->in[0], r, e), *b = vec_of(&q->in[1], r, e), *o; initDVector(&o);
+    if(sum) DVectorDVectorSum(a, b, o); else DVectorDVectorDiff(a, b, o);
+    cmp_vec(o, &q->out[sum ? 1 : 0], r, e, 1, sum ? "s[i] = a[i] + b[i]" : "d[i] = a[i] - b[i]");
+    DelDVector(&a); DelDVector(&b); DelDVector(&o);
+  }
+  else if(!strcmp(fn, "DVectNorm")){
+    if(e == MIX || r < 1) return 1;
+    need(&q->out[3], 1);
+    double n2 = (double)q->out[3].v[0];
+    if(n2 <= 0) return 1;                  /* the zero vector has no direction */
+    for(int pass = 0; pass < 3; pass++){   /* fresh output, already sized non-zero output, in place (as pca.c / pls.c call it) */
+      dvector *v = vec_of(&q->in[0], r, e), *nv;
+      if(pass == 2) nv = v; else { NewDVector(&nv, r); if(pass == 1) for(int i = 0; i < r; i++) nv->data[i] = STALE; }
+      stale_pass = pass == 1;
+      DVectNorm(v, nv);
+      if((int)nv->size != r) miss(e, (int)nv->size, 0, (double)nv->size, (double)r, "result size");
+      else{
+        double s2 = 0.0;
+        for(int i = 0; i < r; i++){
+          double x = (double)q->in[0].v[i], g = nv->data[i];
+          if(sgn(x) != sgn(g)) miss(e, i, 0, g, x / sqrt(n2), "sign of v[i]/|v|");
+          CHK(e, i, 0, g * g * n2, x * x, 8 * EPS, 0.0, "(v[i]/|v|)^2 * |v|^2 = v[i]^2");
+          s2 += g * g;
+        }
+        CHKA(e, 0, 0, s2, 1.0, (r + 8) * EPS, "| v/|v| |^2 = 1");
+      }
+      stale_pass = 0;
+      if(pass != 2) DelDVector(&nv);
+      DelDVector(&v);
+    }
+  }
+  else if(!strcmp(fn, "DVectorMinMax")){
+    if(e == MIX || r < 1) return 1;
+    need(&q->out[2], 3);
+    dvector *v = vec_of(&q->in[0], r, e);
+    double mn = STALE, mx = STALE, mn2 = STALE, mx2 = STALE;
+    DVectorMinMax(v, &mn, &mx); DVectorMinMax(v, &mn2, NULL); DVectorMinMax(v, NULL, &mx2);
+    CHK(e, 0, 0, mn, ldexp((double)q->out[2].v[0], e), 0.0, 0.0, "min = smallest entry");
+    CHK(e, 1, 0, mx, ldexp((double)q->out[2].v[1], e), 0.0, 0.0, "max = largest entry");
+    CHK(e, 0, 1, mn2, ldexp((double)q->out[2].v[0], e), 0.0, 0.0, "min = smallest entry (max not requested)");
+    CHK(e, 1, 1, mx2, ldexp((double)q->out[2].v[1], e), 0.0, 0.0, "max = largest entry (min not requested)");
+    DelDVector(&v);
+  }
+  else if(!strcmp(fn, "DVectorMedian")){
+    if(e == MIX || r < 1) return 1;
+    need(&q->out[2], 3);
+    dvector *v = vec_of(&q->in[0], r, e);
+    double med = STALE;
+    DVectorMedian(v, &med);
+    CHK(e, 0, 0, med, ldexp((double)q->out[2].v[2], e) / 2.0, 0.0, 0.0, "median = middle order statistic (mean of the two middle ones for even n)");
+    DelDVector(&v);
+  }
+  else if(!strcmp(fn, "Matrix2SquareMatrix") || !strcmp(fn, "Matrix2ABSMatrix")){
+    if(e == MIX) return 1;
+    int sq = fn[7] == 'S';
+    matrix *m = mat_of(&q->in[0], r, c, e), *o; initMatrix(&o);
+    for(int pass = 0; pass < 2; pass++){
+      if(pass){ fill_mat(o, STALE); stale_pass = 1; }
+      if(sq) Matrix2SquareMatrix(m, o); else Matrix2ABSMatrix(m, o);
+      cmp_mat(o, &q->out[sq ? 0 : 1], r, c, e, sq ? 2 : 1, sq ? "o[i][j] = m[i][j]^2" : "o[i][j] = |m[i][j]|");
+    }
+    stale_pass = 0;
+    DelMatrix(&m); DelMatrix(&o);
+  }
+  else if(!strcmp(fn, "Matrix2SQRTMatrix")){
+    if(e == MIX) return 1;
+    need(&q->out[8], r * c);
+    matrix *m = mat_of(&q->out[0], r, c, 2 * e), *o; initMatrix(&o);      /* perfect squares: the square root is exact */
+    Matrix2SQRTMatrix(m, o);
+    cmp_mat(o, &q->out[1], r, c, e, 1, "sqrt(x^2) = |x|");
+    DelMatrix(&m);
+    m = mat_of(&q->out[1], r, c, e);                                      /* |m| scaled by 4^(e/2) */
+    for(int pass = 0; pass < 2; pass++){
+      if(pass){ fill_mat(o, STALE); stale_pass = 1; }
+      Matrix2SQRTMatrix(m, o);
+      if(shape_is(o, r, c, e)) for(int i = 0; i < r; i++) for(int j = 0; j < c; j++){
+        double g = o->data[i][j], lo = ldexp((double)q->out[8].v[i * c + j], e / 2);
+        if(!(g >= lo && g < lo + ldexp(1.0, e / 2))) miss(e, i, j, g, lo, "floor(sqrt(x)) <= sqrt(x) < floor(sqrt(x)) + 1");
+        CHK(e, i, j, g * g, m->data[i][j], 4 * EPS, 0.0, "sqrt(x)^2 = x");
+      }
+    }
+    stale_pass = 0;
+    DelMatrix(&m); DelMatrix(&o);
+  }
+  else if(!strcmp(fn, "Matrix2LogMatrix")){
+    if(e != 0) return 1;                   /* the logarithm is not homogeneous: the operand spans 0 .. 999999 by itself */
+    need(&q->out[6], r * c); need(&q->out[7], r * c);
+    matrix *m = mat_of(&q->in[1], r, c, 0), *o; initMatrix(&o);
+    for(int pass = 0; pass < 2; pass++){
+      if(pass){ fill_mat(o, STALE); stale_pass = 1; }
+      Matrix2LogMatrix(m, o);
+      if(shape_is(o, r, c, e)) for(int i = 0; i < r; i++) for(int j = 0; j < c; j++){
+        double g = o->data[i][j], lo = (double)q->out[6].v[i * c + j] / 3.0;
+        if(q->out[7].v[i * c + j]) CHKA(e, i, j, g, lo, 4 * EPS * (lo > 1 ? lo : 1), "log10(x+1) = p when x+1 = 10^p");
+        else if(!(g >= lo - 1e-12 && g < lo + 1.0 / 3.0 + 1e-12)) miss(e, i, j, g, lo, "q/3 <= log10(x+1) < (q+1)/3 with 10^q <= (x+1)^3 < 10^(q+1)");
+      }
+    }
+    stale_pass = 0;
+    DelMatrix(&m); DelMatrix(&o);
+  }
+  else if(!strcmp(fn, "MatrixRowCenterScaling")){
+    if(e == MIX) return 1;
+    need(&q->out[2], r);
+    matrix *m = mat_of(&q->in[0], r, c, e), *o; initMatrix(&o);
+    for(int pass = 0; pass < 2; pass++){
+      if(pass){ fill_mat(o, STALE); stale_pass = 1; }
+      MatrixRowCenterScaling(m, o);
+      if(shape_is(o, r, c, e)) for(int i = 0; i < r; i++){
+        long rs = q->out[2].v[i];
+        if(rs == 0) continue;              /* a row that sums to zero cannot be scaled to unit sum */
+        for(int j = 0; j < c; j++) CHK(e, i, j, o->data[i][j], (double)q->in[0].v[i * c + j] / (double)rs, 4 * EPS, 0.0, "o[i][j] = m[i][j] / row sum");
+      }
+    }
+    stale_pass = 0;
+    DelMatrix(&m); DelMatrix(&o);
+  }
+  else if(!strcmp(fn, "MatrixSVNScaling")){
+    if(e == MIX || c < 2) return 1;        /* the row standard deviation needs two columns */
+    need(&q->out[3], r * c); need(&q->out[4], r);
+    matrix *m = mat_of(&q->in[0], r, c, e), *o; initMatrix(&o);
+    for(int pass = 0; pass < 2; pass++){
+      if(pass){ fill_mat(o, STALE); stale_pass = 1; }
+      MatrixSVNScaling(m, o);
+      if(shape_is(o, r, c, e)) for(int i = 0; i < r; i++){
+        double den = (double)q->out[4].v[i];
+        if(den <= 0) continue;             /* a constant row has no standard deviation */
+        for(int j = 0; j < c; j++){
+          double num = (double)q->out[3].v[i * c + j], g = o->data[i][j];
+          if(num != 0 && sgn(g) != sgn(num)) miss(e, i, j, g, (num < 0 ? -1 : 1) * sqrt(fabs(num) / den), "sign of (x - row mean)/row sdev");
+          CHK(e, i, j, g * g, fabs(num) / den, 1e-12, 1.0, "((x - row mean)/row sdev)^2 = (c x - rowsum)^2 (c-1) / (c (c sumsq - rowsum^2))");
+        }
+      }
+    }
+    stale_pass = 0;
+    DelMatrix(&m); DelMatrix(&o);
+  }
+  else if(!strcmp(fn, "GenIdentityMatrix")){
+    if(e == MIX) return 1;
+    for(int pass = 0; pass < 2; pass++){
+      matrix *m;
+      if(pass == 0){ if(e != 0) continue; NewMatrix(&m, r, c); }
+      else{                                /* a matrix that already holds data */
+        m = mat_of(&q->in[0], r, c, e);
+        for(int i = 0; i < r; i++) for(int j = 0; j < c; j++) if(m->data[i][j] == 0.0) m->data[i][j] = STALE;
+        stale_pass = 1;
+      }
+      GenIdentityMatrix(m);
+      if(r == c){ cmp_mat(m, &q->out[5], r, r, e, 0, "identity: 1 on the diagonal, 0 elsewhere"); }
+      stale_pass = 0;
+      DelMatrix(&m);
+    }
+  }
+  else if(!strcmp(fn, "MatrixGetMaxValueIndex") || !strcmp(fn, "MatrixGetMinValueIndex")){
+    if(e == MIX || r < 1 || c < 1) return 1;     /* an empty matrix has no extreme cell */
+    int mx = fn[10] == 'a';
+    matrix *m = mat_of(&q->in[0], r, c, e);
+    size_t row = 777, col = 777;
+    if(mx) MatrixGetMaxValueIndex(m, &row, &col); else MatrixGetMinValueIndex(m, &row, &col);
+    emit_argext(fn, q, e, mx, row, col);
+    DelMatrix(&m);
+  }
+  else if(!strcmp(fn, "MatrixColDescStat")){
+    if(r == 0 && c > 0) return 1;          /* statistics of empty columns are not defined */
+    if(r > 0 && q->nout < 13){ fprintf(stderr, "DescStat case without expected lists\n"); exit(2); }
+    for(int which = 0; which < 2; which++){  /* 0: positive operand (all 13 statistics); 1: signed operand with zeros (no harmonic mean / CV) */
+      matrix *m = mat_of_cols(&q->in[which], r, c, e), *ds; initMatrix(&ds);
+      for(int pass = 0; pass < 2; pass++){
+        if(pass){ fill_mat(ds, STALE); stale_pass = 1; }
+        MatrixColDescStat(m, ds);
+        if(!shape_is(ds, c, 13, e) || r == 0) continue;
+        if(which == 0) descstat_cmp(ds, r, c, e, &q->out[0], &q->out[1], &q->out[2], &q->out[3], &q->out[4], &q->out[5], &q->out[6]);
+        else descstat_cmp(ds, r, c, e, &q->out[7], &q->out[8], NULL, &q->out[9], &q->out[10], &q->out[11], &q->out[12]);
+      }
+      stale_pass = 0;
+      DelMatrix(&m); DelMatrix(&ds);
+    }
+  }
+  else if(!strcmp(fn, "MatrixColDescStat@missing")){
+    if(e == MIX || r < 3) return 1;
+    need(&q->in[1], c); need(&q->out[0], 8 * c);
+    matrix *m = mat_of(&q->in[0], r, c, e), *ds; initMatrix(&ds);
+    for(int j = 0; j < c; j++) if(q->in[1].v[j] > 0) m->data[q->in[1].v[j] - 1][j] = MISSING;
+    MatrixColDescStat(m, ds);
+    if(shape_is(ds, c, 13, e)) for(int j = 0; j < c; j++){
+      long *w = &q->out[0].v[8 * j];        /* n, sum, twice the median, n*sumsq - sum^2, min, max, zeros, missing: of the column without its missing cell */
+      double n = (double)w[0], *g = ds->data[j], fl = ldexp(1.0, 2 * e);
+      CHK(e, j, 12, g[12], (double)w[7], 0.0, 0.0, "number of missing values");
+      CHK(e, j, 0, g[0], ldexp((double)w[1], e) / n, 4 * EPS, 0.0, "average of the non-missing entries");
+      CHK(e, j, 1, g[1], ldexp((double)w[2], e) / 2.0, 0.0, 0.0, "median of the non-missing entries");
+      CHK(e, j, 3, g[3], ldexp((double)w[3], 2 * e) / (n * n), 1e-12, fl, "population variance of the non-missing entries");
+      CHK(e, j, 4, g[4], ldexp((double)w[3], 2 * e) / (n * (n - 1.0)), 1e-12, fl, "sample variance of the non-missing entries");
+      CHK(e, j, 9, g[9], ldexp((double)w[4], e), 0.0, 0.0, "minimum of the non-missing entries");
+      CHK(e, j, 10, g[10], ldexp((double)w[5], e), 0.0, 0.0, "maximum of the non-missing entries");
+      if(e >= 0) CHK(e, j, 11, g[11], (double)w[6], 0.0, 0.0, "number of zeros among the non-missing entries");
+    }
+    DelMatrix(&m); DelMatrix(&ds);
+  }
+  else if(!strcmp(fn, "PearsonCorrelMatrix")){
+    need(&q->out[0], c * c);
+    matrix *m = mat_of_cols(&q->in[0], r, c, e), *o; initMatrix(&o);
+    for(int pass = 0; pass < 2; pass++){
+      if(pass){ fill_mat(o, STALE); stale_pass = 1; }
+      PearsonCorrelMatrix(m, o);
+      if(!shape_is(o, c, c, e) || r < 2) continue;       /* a correlation needs two observations */
+      long *cv = q->out[0].v;
+      for(int i = 0; i < c; i++){
+        CHK(e, i, i, o->data[i][i], 1.0, 0.0, 0.0, "unit diagonal");
+        for(int j = 0; j < c; j++){
+          if(j == i) continue;
+          double g = o->data[i][j];
+          if(g != o->data[j][i]) miss(e, i, j, g, o->data[j][i], "symmetric");
+          if(cv[i * c + i] <= 0 || cv[j * c + j] <= 0) continue;       /* a constant column has no correlation */
+          double cij = (double)cv[i * c + j], r2 = cij * cij / ((double)cv[i * c + i] * (double)cv[j * c + j]);
+          int ok_sq = vfinite(g) && fabs(g - r2) <= 1e-12;
+          int ok_r = vfinite(g) && fabs(g * g - r2) <= 1e-12 && (r2 < 1e-9 || sgn(g) == sgn(cij));
+          if(!(g >= -1.0 - 1e-12 && g <= 1.0 + 1e-12)) miss(e, i, j, g, r2, "entries in [-1, 1]");
+          if(!ok_sq && !ok_r) miss(e, i, j, g, r2, "r[i][j]^2 = cov[i][j]^2 / (cov[i][i] cov[j][j]) (r or its square accepted)");
+          else if(ok_sq && !ok_r && cij < 0 && !note_done){
+            note_done = 1;
+            VRT_EMIT("{\"e\":\"Note\",\"fn\":\"%s\",\"what\":\"rsq\",\"r\":%d,\"c\":%d,\"at\":[%d,%d],\"got\":\"%.17g\",\"pearson\":\"%.17g\"}", fn, r, c, i, j, g, -sqrt(r2));
+          }
+        }
+      }
+    }
+    stale_pass = 0;
+    DelMatrix(&m); DelMatrix(&o);
+  }
+  else if(!strcmp(fn, "SpearmanCorrelMatrix")){
+    need(&q->out[1], c * c); need(&q->out[2], 1);
+    matrix *o; initMatrix(&o);
+    for(int pass = 0; pass < 3; pass++){   /* fresh output; already sized output; odd columns replaced by their cubes (a strictly increasing map) */
+      matrix *m = mat_of_cols(&q->in[1], r, c, e);
+      if(pass == 1){ fill_mat(o, STALE); stale_pass = 1; }
+      if(pass == 2) for(int i = 0; i < r; i++) for(int j = 0; j < c; j++)       /* MonoCols of Kernels.tla: x^3 on odd columns (1-based), 2x - 7 units on even ones */
+        m->data[i][j] = (j % 2 == 0) ? m->data[i][j] * m->data[i][j] * m->data[i][j] : 2.0 * m->data[i][j] - ldexp(7.0, ecol(e, j));
+      SpearmanCorrelMatrix(m, o);
+      if(shape_is(o, c, c, e) && r >= 2){
+        double den = (double)q->out[2].v[0];
+        for(int i = 0; i < c; i++) for(int j = 0; j < c; j++)
+          CHKA(e, i, j, o->data[i][j], i == j ? 1.0 : (double)q->out[1].v[i * c + j] / den, 1e-13,
+               pass == 2 ? "rho unchanged by a strictly increasing map of a column" : "rho[i][j] = 1 - 6 sum d^2 / (n (n^2 - 1)), d = difference of ranks");
+      }
+      stale_pass = 0;
+      DelMatrix(&m);
+    }
+    DelMatrix(&o);
+  }
+  else if(!strcmp(fn, "DVectorTransposedMatrixDivision")){
+    if(r < 1) return 1;
+    need(&q->out[0], r);
+    int sub = e == MIX ? 2 : 1;
+    for(int u = 0; u < sub; u++){
+      int ex = e == MIX ? (u ? -20 : 20) : e, em = e == MIX ? -ex : 0;     /* x in unit 2^ex, M in unit 2^em, v = x M in unit 2^(ex+em) */
+      double xmax = 1.0;
+      for(int i = 0; i < r; i++) if(fabs((double)q->out[0].v[i]) > xmax) xmax = fabs((double)q->out[0].v[i]);
+      for(int pass = 0; pass < 2; pass++){
+        matrix *m = mat_of(&q->in[1], r, r, em); dvector *v = vec_of(&q->in[0], r, ex + em), *x;
+        if(pass){ NewDVector(&x, r); for(int i = 0; i < r; i++) x->data[i] = STALE; stale_pass = 1; } else initDVector(&x);
+        DVectorTransposedMatrixDivision(v, m, x);
+        if((int)x->size != r) miss(e, (int)x->size, 0, (double)x->size, (double)r, "result size");
+        else for(int i = 0; i < r; i++) CHKA(e, i, 0, x->data[i], ldexp((double)q->out[0].v[i], ex), ldexp(1e-9 * xmax, ex), "x = v / M, the solution of x M = v");
+        stale_pass = 0;
+        DelMatrix(&m); DelDVector(&v); DelDVector(&x);
+      }
+    }
+  }
+  else if(!strcmp(fn, "TensorTranspose")){
+    if(e == MIX) return 1;
+    need(&q->out[3], k * r * c);
+    tensor *t = tensor_of(&q->in[0], k, r, c, e), *t2; NewTensor(&t2, k);
+    for(int s = 0; s < k; s++) NewTensorMatrix(t2, s, c, r);
+    for(int pass = 0; pass < 2; pass++){
+      if(pass){ for(int s = 0; s < k; s++) fill_mat(t2->m[s], STALE); stale_pass = 1; }
+      TensorTranspose(t, t2);
+      if((int)t2->order != k) miss(e, (int)t2->order, 0, (double)t2->order, (double)k, "result order");
+      else for(int s = 0; s < k; s++) if(shape_is(t2->m[s], c, r, e)) for(int j = 0; j < c; j++) for(int i = 0; i < r; i++)
+        CHK(e, j, i, t2->m[s]->data[j][i], ldexp((double)q->out[3].v[(s * c + j) * r + i], e), 0.0, 0.0, "t2[s][j][i] = t1[s][i][j]");
+    }
+    stale_pass = 0;
+    DelTensor(&t); DelTensor(&t2);
+  }
+  else if(!strcmp(fn, "KronekerProductVectorMatrix")){
+    need(&q->out[6], k * r * c);
+    int ev = e == MIX ? 20 : e, em = e == MIX ? -20 : e;
+    dvector *v = vec_of(&q->in[2], r, ev); matrix *m = mat_of(&q->in[3], c, k, em);
+    tensor *t; NewTensor(&t, k);
+    for(int s = 0; s < k; s++) NewTensorMatrix(t, s, r, c);
+    for(int pass = 0; pass < 2; pass++){
+      if(pass){ for(int s = 0; s < k; s++) fill_mat(t->m[s], STALE); stale_pass = 1; }
+      KronekerProductVectorMatrix(v, m, t);
+      for(int s = 0; s < k; s++) if(shape_is(t->m[s], r, c, e)) for(int i = 0; i < r; i++) for(int j = 0; j < c; j++)
+        CHK(e, i, j, t->m[s]->data[i][j], ldexp((double)q->out[6].v[(s * r + i) * c + j], ev + em), 0.0, 0.0, "t[s][i][j] = v[i] m[j][s]");
+    }
+    stale_pass = 0;
+    DelDVector(&v); DelMatrix(&m); DelTensor(&t);
+  }
+  else if(!strcmp(fn, "TensorColAverage") || !strcmp(fn, "TensorColSDEV")){
+    if(e == MIX) return 1;
+    int sdv = fn[9] == 'S';
+    need(&q->out[4], c * k); need(&q->out[5], c * k);
+    tensor *t = tensor_of(&q->in[0], k, r, c, e); matrix *o; initMatrix(&o);
+    if(sdv){ if(r >= 2) TensorColSDEV(t, o); } else TensorColAverage(t, o);
+    if(c >= 1 && r >= (sdv ? 2 : 1) && shape_is(o, c, k, e)) for(int j = 0; j < c; j++) for(int s = 0; s < k; s++){
+      double g = o->data[j][s];
+      if(!sdv) CHK(e, j, s, g, ldexp((double)q->out[4].v[j * k + s], e) / (double)r, 4 * EPS, 0.0, "o[j][s] = column sum of slice s / rows");
+      else{
+        if(!(g >= 0.0)) miss(e, j, s, g, 0.0, "sdev >= 0");
+        CHK(e, j, s, g * g, ldexp((double)q->out[5].v[j * k + s], 2 * e) / ((double)r * (double)(r - 1)), 1e-12, ldexp(1.0, 2 * e), "o[j][s]^2 = sample variance of column j of slice s");
+      }
+    }
+    DelTensor(&t); DelMatrix(&o);
+  }
+  else return 0;
+  return 1;
+}
+
+
 /* ---- one function, one case, one scale ---- */
 static const int MTN[3] = { 2, 3, 5 };
 static void run_one(const char *fn, kcase *q, int e){
   int r = q->r, k = q->k, c = q->c;
+  if(run_two(fn, q, e)) return;
+  if(e == MIX) return;
   if(!strcmp(fn, "MatrixDotProduct")){
     matrix *a = mat_of(&q->in[0], r, k, e), *b = mat_of(&q->in[1], k, c, e), *p; NewMatrix(&p, r, c);
     MatrixDotProduct(a, b, p);
@@ -324,7 +722,15 @@ static const char *family_of(const char *fn){
     {"MatrixColVar", "ColStats"}, {"MatrixColSDEV", "ColStats"}, {"MatrixColRMS", "ColStats"}, {"MatrixCovariance", "Covariance"},
     {"DVectorDVectorDotProd", "DVector"}, {"DvectorModule", "DVector"}, {"DVectorMean", "DVector"}, {"DVectorSDEV", "DVector"},
     {"TransposedTensorDVectorProduct", "Tensor"}, {"DvectorTensorDotProduct", "Tensor"}, {"TensorMatrixDotProduct", "Tensor"},
-    {"MatrixSort", "Sort"}, {"MatrixReverseSort", "Sort"}, {NULL, NULL} };
+    {"MatrixSort", "Sort"}, {"MatrixReverseSort", "Sort"},
+    {"DVectNorm", "DVector2"}, {"DVectorDVectorDiff", "DVector2"}, {"DVectorDVectorSum", "DVector2"}, {"DVectorMinMax", "DVector2"}, {"DVectorMedian", "DVector2"},
+    {"Matrix2SquareMatrix", "MatMaps"}, {"Matrix2ABSMatrix", "MatMaps"}, {"Matrix2SQRTMatrix", "MatMaps"}, {"Matrix2LogMatrix", "MatMaps"},
+    {"MatrixRowCenterScaling", "MatMaps"}, {"MatrixSVNScaling", "MatMaps"}, {"GenIdentityMatrix", "MatMaps"},
+    {"MatrixGetMaxValueIndex", "MatMaps"}, {"MatrixGetMinValueIndex", "MatMaps"},
+    {"MatrixColDescStat", "DescStat"}, {"MatrixColDescStat@missing", "DescStatMiss"},
+    {"PearsonCorrelMatrix", "Correl"}, {"SpearmanCorrelMatrix", "Correl"}, {"DVectorTransposedMatrixDivision", "Division"},
+    {"TensorTranspose", "Tensor"}, {"KronekerProductVectorMatrix", "Tensor"}, {"TensorColAverage", "Tensor"}, {"TensorColSDEV", "Tensor"},
+    {NULL, NULL} };
   for(int i = 0; T[i][0]; i++) if(!strcmp(T[i][0], fn)) return T[i][1];
   return NULL;
 }
@@ -351,9 +757,11 @@ int main(int argc, char **argv){
 #endif
   vrt_force_nproc(1);
   kcase q; long ncases = 0;
-  int issort = !strcmp(fam, "Sort");
+  int issort = !strcmp(fam, "Sort") || !strncmp(fn, "MatrixGetM", 10);      /* functions whose results are recorded for TLC instead of compared here */
+  int batch2 = !strcmp(fam, "DVector2") || !strcmp(fam, "MatMaps") || !strcmp(fam, "DescStat") || !strcmp(fam, "DescStatMiss") || !strcmp(fam, "Correl") ||
+               !strcmp(fam, "Division") || !strcmp(fn, "TensorTranspose") || !strcmp(fn, "KronekerProductVectorMatrix") || !strncmp(fn, "TensorCol", 9);
   while(fscanf(f, "%31s %d %d %d %d %d %d", q.fam, &q.sd, &q.r, &q.k, &q.c, &q.nin, &q.nout) == 7){
-    if(q.nin > 8 || q.nout > 8){ fprintf(stderr, "too many operand lists\n"); return 2; }
+    if(q.nin > 16 || q.nout > 16){ fprintf(stderr, "too many operand lists\n"); return 2; }
     for(int i = 0; i < q.nin; i++) if(!read_arr(f, &q.in[i])){ fprintf(stderr, "truncated case file\n"); return 2; }
     for(int i = 0; i < q.nout; i++) if(!read_arr(f, &q.out[i])){ fprintf(stderr, "truncated case file\n"); return 2; }
     if(!strcmp(q.fam, fam)){
@@ -361,11 +769,12 @@ int main(int argc, char **argv){
       cur = &q; mm.bad = 0; mm.scales = 0; drift = 0;
       if(issort) VRT_EMIT("{\"e\":\"Reset\"}");
       for(int x = 0; x < 3; x++){ cur_exp = EXPS[x]; run_one(fn, &q, EXPS[x]); }
+      if(batch2){ cur_exp = MIX; run_one(fn, &q, MIX); }
       cur = NULL;
       if(!issort){
         if(mm.bad)
-          VRT_EMIT("{\"e\":\"Res\",\"fn\":\"%s\",\"sd\":%d,\"r\":%d,\"k\":%d,\"c\":%d,\"ok\":0,\"scales\":%d,\"exp\":%d,\"at\":[%d,%d],\"got\":\"%.17g\",\"want\":\"%.17g\",\"what\":\"%s\"}",
-                   fn, q.sd, q.r, q.k, q.c, mm.scales, mm.exp, mm.i, mm.j, mm.got, mm.want, mm.what);
+          VRT_EMIT("{\"e\":\"Res\",\"fn\":\"%s\",\"sd\":%d,\"r\":%d,\"k\":%d,\"c\":%d,\"ok\":0,\"scales\":%d,\"exp\":%d,\"stale\":%d,\"at\":[%d,%d],\"got\":\"%.17g\",\"want\":\"%.17g\",\"what\":\"%s\"}",
+                   fn, q.sd, q.r, q.k, q.c, mm.scales, mm.exp, mm.stale, mm.i, mm.j, mm.got, mm.want, mm.what);
         else
           VRT_EMIT("{\"e\":\"Res\",\"fn\":\"%s\",\"sd\":%d,\"r\":%d,\"k\":%d,\"c\":%d,\"ok\":1%s}", fn, q.sd, q.r, q.k, q.c, drift ? ",\"drift\":1" : "");
       }
